@@ -128,7 +128,7 @@ PROPS = {
         "partial": "liveness needs scheduler fairness; the real-time bound is measured with slack, not proved",
     },
     "C08": {
-        "kind": "client", "modules": ["OAP.Props.C08"],
+        "kind": "client", "conformance_recovery": True, "modules": ["OAP.Props.C08"],
         "keys": ["uses_session_iff_unexpired", "fallback_on_unauthenticated", "after_cb_only_on_success", "hitmax_reported", "one_connection", "serves_again", "one_recovery_per_loss", "recovery_matches_model", "recovery_ends"],
         "rule": "the peer plays per-attempt outcome sequences over {refuse, drop before answer, unauthenticated, other status, silence, ok} after a loss, "
                 "with expired / unexpired session, with / without token getter, MaxReconnect in {0,1,2,3}; observed: first request kind and session/"
@@ -154,7 +154,7 @@ PROPS = {
         "partial": "socket delivery is runtime",
     },
     "C14": {
-        "kind": "client", "modules": ["OAP.Props.C14"], "keys": ["close_final", "on_close_once", "close_no_panic", "close_prompt", "hitmax_reported", "no_panic"],
+        "kind": "client", "conformance_recovery": True, "modules": ["OAP.Props.C14"], "keys": ["close_final", "on_close_once", "close_no_panic", "close_prompt", "hitmax_reported", "no_panic"],
         "rule": "Close in every client state of the quantifier: idle, requests in flight, incoming burst (reader/dispatcher busy), right after a peer drop, "
                 "between failing reconnect attempts, right after the first failed attempt, with hit-max about to fire, the client giving up on its own, "
                 "and a writer parked by a gate between the transport's closed() check and the queue send while the connection is closed; followed by a "
@@ -170,7 +170,7 @@ PROPS = {
         "partial": "ticker jitter: real-time bounds with slack",
     },
     "C16": {
-        "kind": "client", "conformance": True, "modules": ["OAP.Props.C16"], "keys": ["client_threads_exit", "sockets_released", "bounded_live"],
+        "kind": "client", "conformance_recovery": True, "conformance": True, "modules": ["OAP.Props.C16"], "keys": ["client_threads_exit", "sockets_released", "bounded_live"],
         "rule": "cycle scenarios over {dial+close, dial+peer drop+recover+close, dial+server close packet+recover+close, failed dial}: library goroutines "
                 "(goroutine profile filtered to the client package) and sockets open at the peers after 2 cycles and after 10 more must not grow; plus "
                 "the C14 scenarios' end-state checks (no library goroutine, no open socket after Close).",
